@@ -5,7 +5,6 @@
    integers with explicit wrap. Panic sites are numbered; BuiltinProofs.v shows that none is
    reachable on well-formed arguments. *)
 From Quiver Require Export Rope.
-From Coq Require Import String.
 
 (* the slice of `Value` that builtins can inspect (tuple ids are ignored by every builtin) *)
 Inductive bval :=
@@ -111,5 +110,514 @@ Definition popcount (z : Z) : Z := match z with Zpos p => pos_popcount p | _ => 
 Definition impl_integer_popcount (a : bval) : outcome bval :=
   match a with
   | BInt n => n' <- to_i64_checked n ;; Val (BInt (popcount (wrap_u64 n')))
+  | _ => Err TypeMismatch
+  end.
+
+(* ================================================================== shared helpers *)
+
+(* Panic sites (explicit partiality of the Rust code; BinaryProofs.v / VectorProofs.v show that none
+   is reachable when every argument binary is a well-formed rope):
+     1  binary_concat   a.len() + b.len() overflows usize           (binary.rs:127)
+     2  binary_or/xor   byte_at(i).unwrap()                          (binary.rs:221,226,271,276)
+     3  binary_shift    bytes.len() as u64 * 8 overflows             (binary.rs:389)
+     4  binary_shift    bytes[i + byte_shift] (aligned left)         (binary.rs:408)
+     5  binary_shift    bytes[i + byte_shift] (carry left)           (binary.rs:416)
+     6  binary_shift    slice bounds of the aligned right copy       (binary.rs:426)
+     7  binary_shift    bytes[i - byte_shift] (carry right)          (binary.rs:433)
+     8  binary_popcount u64 sum overflows                            (binary.rs:475)
+     9  binary_get/set  byte_offset * 8 + bit_offset overflows       (binary.rs:539,645)
+    10  binary_get/set  total_bit_start + num_bits overflows         (binary.rs:540,646)
+    11  binary_get/set  last_byte_needed - byte_offset underflows    (binary.rs:552,674)
+    12  binary_get/set  byte_at(byte_offset + i).unwrap()            (binary.rs:556,678)
+    13  binary_get/set  bits_read - bit_offset - num_bits underflows (binary.rs:561,683)
+    14  binary_get/set  u128 shift amount >= 128                     (binary.rs:563,687,690)
+    15  binary_set      BinaryData::slice(..).unwrap()               (binary.rs:718,723,728,734)
+    16  binary_append   left.len() + right.len() overflows (concat)  (binary.rs:68 via :928)
+    20  vector lane     bytes[off..off + width] out of bounds        (vector.rs:25,26)
+    21  vector_take     data[i*width..(i+1)*width] out of bounds     (vector.rs:214)
+    22  vector_push     concat length overflows                      (binary.rs:68 via vector.rs:288) *)
+
+Definition wrap_u128 (z : Z) : Z := z mod 2 ^ 128.
+Definition in_u128 (z : Z) : bool := (0 <=? z) && (z <? 2 ^ 128).
+
+(* 0, 1, ..., n-1 : the index sequence of `for i in 0..n` *)
+Definition zrange (n : Z) : list Z := map Z.of_nat (seq 0 (Z.to_nat n)).
+
+(* a loop body that may fail, mapped over the indices *)
+Fixpoint omap {A B} (f : A -> outcome B) (l : list A) : outcome (list B) :=
+  match l with
+  | [] => Val []
+  | x :: t => y <- f x ;; ys <- omap f t ;; Val (y :: ys)
+  end.
+
+(* a loop with mutable state that may fail *)
+Fixpoint ofold {A S} (f : S -> A -> outcome S) (l : list A) (s : S) : outcome S :=
+  match l with
+  | [] => Val s
+  | x :: t => s' <- f s x ;; ofold f t s'
+  end.
+
+(* Executor::allocate_binary_data (executor.rs:300): `data.len() > MAX_BINARY_SIZE` → InvalidArgument *)
+Definition alloc (r : rope) : outcome bval :=
+  if MAX_BINARY_SIZE <? rlen r then Err InvalidArgument else Val (BBin r).
+(* Executor::allocate_binary (executor.rs:503) *)
+Definition alloc_bytes (bs : list Z) : outcome bval := alloc (Owned bs).
+
+(* usize::checked_mul *)
+Definition checked_mul_usize (a b : Z) : option Z := if in_u64 (a * b) then Some (a * b) else None.
+
+(* ---------------------------------------------------------------- builtins/binary.rs *)
+
+(* builtin_binary_repeat (binary.rs:14) *)
+Definition impl_binary_repeat (a : bval) : outcome bval :=
+  match a with
+  | BTup [BBin unit; BInt count] =>
+      if count <? 0 then Err InvalidArgument else
+      count <- to_usize_checked count ;;
+      match checked_mul_usize (rlen unit) count with
+      | None => Err InvalidArgument
+      | Some total =>
+          if MAX_BINARY_SIZE <? total then Err InvalidArgument
+          else alloc (mk_tiled unit count)
+      end
+  | _ => Err TypeMismatch
+  end.
+
+(* builtin_binary_new (binary.rs:60) *)
+Definition impl_binary_new (a : bval) : outcome bval :=
+  match a with
+  | BInt size =>
+      if size <? 0 then Err InvalidArgument else
+      size <- to_usize_checked size ;;
+      if MAX_BINARY_SIZE <? size then Err InvalidArgument else alloc (Zeroed size)
+  | _ => Err TypeMismatch
+  end.
+
+(* builtin_binary_length (binary.rs:95) *)
+Definition impl_binary_length (a : bval) : outcome bval :=
+  match a with
+  | BBin r => Val (BInt (rlen r))
+  | _ => Err TypeMismatch
+  end.
+
+(* builtin_binary_concat (binary.rs:116) *)
+Definition impl_binary_concat (a : bval) : outcome bval :=
+  match a with
+  | BTup [BBin ra; BBin rb] =>
+      let total := rlen ra + rlen rb in
+      if negb (in_u64 total) then Panic 1 else
+      if MAX_BINARY_SIZE <? total then Err InvalidArgument
+      else alloc (mk_concat ra rb)
+  | _ => Err TypeMismatch
+  end.
+
+Fixpoint zip_with (f : Z -> Z -> Z) (l1 l2 : list Z) : list Z :=
+  match l1, l2 with
+  | x :: t1, y :: t2 => f x y :: zip_with f t1 t2
+  | _, _ => []
+  end.
+
+(* builtin_binary_and (binary.rs:163): iter().zip(iter()) — the shorter length *)
+Definition impl_binary_and (a : bval) : outcome bval :=
+  match a with
+  | BTup [BBin ra; BBin rb] => alloc_bytes (zip_with Z.land (rope_iter ra) (rope_iter rb))
+  | _ => Err TypeMismatch
+  end.
+
+(* `if i < len { data.byte_at(i).unwrap() } else { 0 }` *)
+Definition padded_byte (r : rope) (len i : Z) : outcome Z :=
+  if i <? len then match byte_at r i with Some b => Val b | None => Panic 2 end else Val 0.
+
+Definition padded_op (op : Z -> Z -> Z) (ra rb : rope) : outcome bval :=
+  let la := rlen ra in let lb := rlen rb in
+  bs <- omap (fun i => x <- padded_byte ra la i ;; y <- padded_byte rb lb i ;; Val (op x y))
+             (zrange (Z.max la lb)) ;;
+  alloc_bytes bs.
+
+(* builtin_binary_or (binary.rs:201), builtin_binary_xor (binary.rs:251) *)
+Definition impl_binary_or (a : bval) : outcome bval :=
+  match a with
+  | BTup [BBin ra; BBin rb] => padded_op Z.lor ra rb
+  | _ => Err TypeMismatch
+  end.
+Definition impl_binary_xor (a : bval) : outcome bval :=
+  match a with
+  | BTup [BBin ra; BBin rb] => padded_op Z.lxor ra rb
+  | _ => Err TypeMismatch
+  end.
+
+(* builtin_binary_index (binary.rs:301) *)
+Definition impl_binary_index (a : bval) : outcome bval :=
+  match a with
+  | BTup [BBin r; BInt byte; BInt off] =>
+      byte <- to_u8_checked byte ;;
+      if off <? 0 then Err InvalidArgument else
+      off <- to_usize_checked off ;;
+      match find_byte r byte off with
+      | Some i => Val (BInt i)
+      | None => Val bnil
+      end
+  | _ => Err TypeMismatch
+  end.
+
+(* builtin_binary_not (binary.rs:341): `!byte` on u8 *)
+Definition impl_binary_not (a : bval) : outcome bval :=
+  match a with
+  | BBin r => alloc_bytes (map (fun b => 255 - b) (rope_iter r))
+  | _ => Err TypeMismatch
+  end.
+
+(* the four loops of builtin_binary_shift (binary.rs:402-439) *)
+Definition shl_aligned (bytes : list Z) (len byte_shift : Z) : outcome (list Z) :=
+  omap (fun i => if i + byte_shift <? len
+                 then match nth_error bytes (Z.to_nat (i + byte_shift)) with
+                      | Some b => Val b | None => Panic 4 end
+                 else Val 0) (zrange len).
+
+(* `for i in (0..len).rev()`: state = (carry, suffix of result already written) *)
+Definition shl_carry (bytes : list Z) (len byte_shift bit_shift : Z) : outcome (list Z) :=
+  st <- ofold (fun (st : Z * list Z) i =>
+                 let (carry, acc) := st in
+                 if i + byte_shift <? len
+                 then match nth_error bytes (Z.to_nat (i + byte_shift)) with
+                      | Some src => Val (Z.shiftr src (8 - bit_shift),
+                                         Z.lor (wrap_u8 (Z.shiftl src bit_shift)) carry :: acc)
+                      | None => Panic 5 end
+                 else Val (carry, 0 :: acc))
+              (rev (zrange len)) (0, []) ;;
+  Val (snd st).
+
+Definition shr_aligned (bytes : list Z) (len byte_shift : Z) : outcome (list Z) :=
+  if len <? byte_shift then Panic 6
+  else Val (repeat 0 (Z.to_nat byte_shift) ++ firstn (Z.to_nat (len - byte_shift)) bytes).
+
+(* `for i in 0..len`: state = (carry, reversed prefix of result already written) *)
+Definition shr_carry (bytes : list Z) (len byte_shift bit_shift : Z) : outcome (list Z) :=
+  st <- ofold (fun (st : Z * list Z) i =>
+                 let (carry, acc) := st in
+                 if byte_shift <=? i
+                 then match nth_error bytes (Z.to_nat (i - byte_shift)) with
+                      | Some src => Val (wrap_u8 (Z.shiftl src (8 - bit_shift)),
+                                         Z.lor (Z.shiftr src bit_shift) carry :: acc)
+                      | None => Panic 7 end
+                 else Val (carry, 0 :: acc))
+              (zrange len) (0, []) ;;
+  Val (rev (snd st)).
+
+(* builtin_binary_shift (binary.rs:368) *)
+Definition impl_binary_shift (a : bval) : outcome bval :=
+  match a with
+  | BTup [BBin r; BInt amount] =>
+      amount <- to_i64_checked amount ;;
+      if amount =? 0 then Val (BBin r)                 (* the same binary handle *)
+      else
+        let bytes := bytes_of r in                     (* to_vec *)
+        let len := Z.of_nat (length bytes) in
+        let shift_bits := Z.abs amount in              (* unsigned_abs: u64 *)
+        if negb (in_u64 (len * 8)) then Panic 3 else
+        if len * 8 <=? shift_bits then alloc_bytes (repeat 0 (length bytes))
+        else
+          let sb := wrap_u32 shift_bits in             (* `as u32` *)
+          let byte_shift := sb / 8 in
+          let bit_shift := sb mod 8 in
+          res <- (if 0 <? amount
+                  then if bit_shift =? 0 then shl_aligned bytes len byte_shift
+                       else shl_carry bytes len byte_shift bit_shift
+                  else if bit_shift =? 0 then shr_aligned bytes len byte_shift
+                       else shr_carry bytes len byte_shift bit_shift) ;;
+          alloc_bytes res
+  | _ => Err TypeMismatch
+  end.
+
+(* builtin_binary_popcount (binary.rs:462): u8::count_ones summed into a u64 *)
+Definition impl_binary_popcount (a : bval) : outcome bval :=
+  match a with
+  | BBin r =>
+      let count := fold_left (fun acc b => acc + popcount b) (rope_iter r) 0 in
+      if in_u64 count then Val (BInt count) else Panic 8
+  | _ => Err TypeMismatch
+  end.
+
+(* the common prefix of builtin_binary_get / builtin_binary_set: argument narrowing, range checks
+   and the byte window [byte_offset, last_byte_needed). Returns (byte_offset, bit_offset, num_bits,
+   last_byte_needed, bytes_in_window, bits_after). *)
+Definition bit_window (len bo bi nb : Z) : outcome (Z * Z * Z * Z * Z * Z) :=
+  bo <- to_i64_checked bo ;;
+  bi <- to_i64_checked bi ;;
+  nb <- to_i64_checked nb ;;
+  if bo <? 0 then Err InvalidArgument else
+  if negb ((0 <=? bi) && (bi <=? 7)) then Err InvalidArgument else
+  if negb ((1 <=? nb) && (nb <=? 64)) then Err InvalidArgument else
+  if len <? bo then Err InvalidArgument else
+  let tbs := bo * 8 + bi in
+  if negb (in_u64 tbs) then Panic 9 else
+  let tbe := tbs + nb in
+  if negb (in_u64 tbe) then Panic 10 else
+  let last := (tbe + 7) / 8 in                       (* div_ceil(8) *)
+  if len <? last then Err InvalidArgument else
+  let nbytes := last - bo in
+  if nbytes <? 0 then Panic 11 else
+  let bits_after := nbytes * 8 - bi - nb in
+  if bits_after <? 0 then Panic 13 else
+  if 128 <=? bits_after then Panic 14 else
+  Val (bo, bi, nb, last, nbytes, bits_after).
+
+(* `for i in 0..n { value = (value << 8) | byte_at(byte_offset + i).unwrap() as u128 }` *)
+Definition read_window (r : rope) (bo nbytes : Z) : outcome Z :=
+  ofold (fun v i => match byte_at r (bo + i) with
+                    | Some b => Val (Z.lor (wrap_u128 (Z.shiftl v 8)) b)
+                    | None => Panic 12 end) (zrange nbytes) 0.
+
+(* builtin_binary_get (binary.rs:491) *)
+Definition impl_binary_get (a : bval) : outcome bval :=
+  match a with
+  | BTup [BBin r; BInt bo; BInt bi; BInt nb] =>
+      w <- bit_window (rlen r) bo bi nb ;;
+      let '(bo, bi, nb, last, nbytes, bits_after) := w in
+      value <- read_window r bo nbytes ;;
+      let value := Z.shiftr value bits_after in
+      let mask := wrap_u128 (Z.shiftl 1 nb) - 1 in
+      Val (BInt (wrap_u64 (Z.land value mask)))
+  | _ => Err TypeMismatch
+  end.
+
+(* builtin_binary_set (binary.rs:589) *)
+Definition impl_binary_set (a : bval) : outcome bval :=
+  match a with
+  | BTup [BBin r; BInt bo; BInt bi; BInt value; BInt nb] =>
+      let len := rlen r in
+      w <- bit_window len bo bi nb ;;
+      let '(bo, bi, nb, last, nbytes, bits_after) := w in
+      let max_value := if nb =? 64 then two64 - 1 else Z.shiftl 1 nb - 1 in
+      value <- to_i64_checked value ;;
+      if (value <? 0) || (max_value <? value) then Err InvalidArgument else
+      current <- read_window r bo nbytes ;;          (* modified_bytes folded big-endian *)
+      let shifted_value := wrap_u128 (Z.shiftl value bits_after) in
+      let target_mask := wrap_u128 (Z.shiftl (wrap_u128 (Z.shiftl 1 nb) - 1) bits_after) in
+      let mask := 2 ^ 128 - 1 - target_mask in       (* `!target_mask` on u128 *)
+      let new_value := Z.lor (Z.land current mask) shifted_value in
+      let new_bytes := map (fun i => Z.land (Z.shiftr new_value (i * 8)) 255) (rev (zrange nbytes)) in
+      let mid := Owned new_bytes in
+      res <- (if (bo =? 0) && (last =? len) then Val mid
+              else if bo =? 0 then
+                match mk_slice r last (len - last) with
+                | Some rgt => Val (mk_concat mid rgt) | None => Panic 15 end
+              else if last =? len then
+                match mk_slice r 0 bo with
+                | Some lft => Val (mk_concat lft mid) | None => Panic 15 end
+              else
+                match mk_slice r 0 bo, mk_slice r last (len - last) with
+                | Some lft, Some rgt => Val (mk_concat (mk_concat lft mid) rgt)
+                | _, _ => Panic 15 end) ;;
+      alloc res
+  | _ => Err TypeMismatch
+  end.
+
+(* builtin_binary_slice (binary.rs:762) *)
+Definition impl_binary_slice (a : bval) : outcome bval :=
+  match a with
+  | BTup [BBin r; BInt s; BInt e] =>
+      if (s <? 0) || (e <? 0) then Err InvalidArgument else
+      s <- to_usize_checked s ;;
+      e <- to_usize_checked e ;;
+      let len := rlen r in
+      if (len <? s) || (len <? e) then Err InvalidArgument else
+      if e <? s then Err InvalidArgument else
+      match mk_slice r s (e - s) with
+      | Some x => alloc x
+      | None => Err InvalidArgument
+      end
+  | _ => Err TypeMismatch
+  end.
+
+(* builtin_binary_hash32 (binary.rs:823): FNV-1a, u32 wrapping_mul *)
+Definition impl_binary_hash32 (a : bval) : outcome bval :=
+  match a with
+  | BBin r => Val (BInt (fold_left (fun h b => wrap_u32 (Z.lxor h b * 16777619)) (rope_iter r) 2166136261))
+  | _ => Err TypeMismatch
+  end.
+
+(* builtin_binary_hash64 (binary.rs:848): FNV-1a, u64 wrapping_mul, `hash as i64` *)
+Definition impl_binary_hash64 (a : bval) : outcome bval :=
+  match a with
+  | BBin r =>
+      Val (BInt (to_i64 (fold_left (fun h b => wrap_u64 (Z.lxor h b * 1099511628211)) (rope_iter r)
+                                   14695981039346656037)))
+  | _ => Err TypeMismatch
+  end.
+
+(* builtin_binary_append (binary.rs:879) *)
+Definition impl_binary_append (a : bval) : outcome bval :=
+  match a with
+  | BTup [BBin r; BInt value; BInt num_bytes] =>
+      num_bytes <- to_i64_checked num_bytes ;;
+      if negb ((1 <=? num_bytes) && (num_bytes <=? 8)) then Err InvalidArgument else
+      if value <? 0 then Err InvalidArgument else
+      value <- to_i64_checked value ;;               (* then `as u64`: value >= 0 here *)
+      let max_value := if num_bytes =? 8 then two64 - 1 else Z.shiftl 1 (num_bytes * 8) - 1 in
+      if max_value <? value then Err InvalidArgument else
+      let new_bytes := map (fun i => Z.land (Z.shiftr value (i * 8)) 255) (rev (zrange num_bytes)) in
+      if negb (in_u64 (rlen r + num_bytes)) then Panic 16 else
+      alloc (mk_concat r (Owned new_bytes))
+  | _ => Err TypeMismatch
+  end.
+
+(* ---------------------------------------------------------------- builtins/vector.rs *)
+
+(* little-endian value of a byte slice *)
+Fixpoint le_val (bs : list Z) : Z :=
+  match bs with [] => 0 | b :: t => b + 256 * le_val t end.
+(* iN::from_le_bytes: two's-complement reinterpretation of a residue mod 2^bits *)
+Definition to_signed (bits v : Z) : Z := if v <? 2 ^ (bits - 1) then v else v - 2 ^ bits.
+(* (value as iN).to_le_bytes() *)
+Fixpoint le_bytes (n : nat) (v : Z) : list Z :=
+  match n with O => [] | S k => v mod 256 :: le_bytes k (v / 256) end.
+
+(* lane (vector.rs:22): `bytes[off..off + width]` panics when out of bounds *)
+Definition lane (bytes : list Z) (w i : Z) : outcome Z :=
+  let chunk := firstn (Z.to_nat w) (skipn (Z.to_nat (i * w)) bytes) in
+  if Z.of_nat (length chunk) =? w then Val (to_signed (8 * w) (le_val chunk)) else Panic 20.
+
+(* fits (vector.rs:32) *)
+Definition fits (v w : Z) : bool :=
+  if w =? 4 then (- 2 ^ 31 <=? v) && (v <? 2 ^ 31) else if w =? 8 then true else false.
+
+(* push_lane (vector.rs:41) *)
+Definition push_lane (w v : Z) : list Z := le_bytes (Z.to_nat w) (v mod 2 ^ (8 * w)).
+
+(* checked_width (vector.rs:50) *)
+Definition checked_width (w : Z) : outcome Z :=
+  w <- to_i64_checked w ;;
+  if (w =? 4) || (w =? 8) then Val w else Err InvalidArgument.
+
+(* i64::checked_add / checked_sub / checked_mul *)
+Definition checked_i64 (op : Z -> Z -> Z) (x y : Z) : option Z :=
+  if in_i64 (op x y) then Some (op x y) else None.
+
+(* elementwise (vector.rs:68); None = the nil result *)
+Fixpoint elementwise_loop (op : Z -> Z -> option Z) (a b : list Z) (w : Z) (idxs : list Z) (out : list Z)
+  : outcome (option (list Z)) :=
+  match idxs with
+  | [] => Val (Some out)
+  | i :: rest =>
+      x <- lane a w i ;;
+      y <- lane b w i ;;
+      match op x y with
+      | Some v => if fits v w then elementwise_loop op a b w rest (out ++ push_lane w v)
+                  else Val None
+      | None => Val None
+      end
+  end.
+
+Definition elementwise (op : Z -> Z -> option Z) (arg : bval) : outcome bval :=
+  match arg with
+  | BTup [BBin ra; BBin rb; BInt w] =>
+      w <- checked_width w ;;
+      let a := bytes_of ra in let b := bytes_of rb in          (* materialize *)
+      let la := Z.of_nat (length a) in let lb := Z.of_nat (length b) in
+      if negb (la =? lb) || negb (la mod w =? 0) then Val bnil else
+      res <- elementwise_loop op a b w (zrange (la / w)) [] ;;
+      match res with
+      | Some out => alloc_bytes out
+      | None => Val bnil
+      end
+  | _ => Err TypeMismatch
+  end.
+
+Definition impl_vector_add := elementwise (checked_i64 Z.add).
+Definition impl_vector_subtract := elementwise (checked_i64 Z.sub).
+Definition impl_vector_multiply := elementwise (checked_i64 Z.mul).
+
+(* compare (vector.rs:131) *)
+Definition compare_kernel (pred : Z -> Z -> bool) (arg : bval) : outcome bval :=
+  match arg with
+  | BTup [BBin ra; BBin rb; BInt w] =>
+      w <- checked_width w ;;
+      let a := bytes_of ra in let b := bytes_of rb in
+      let la := Z.of_nat (length a) in let lb := Z.of_nat (length b) in
+      if negb (la =? lb) || negb (la mod w =? 0) then Val bnil else
+      out <- omap (fun i => x <- lane a w i ;; y <- lane b w i ;; Val (if pred x y then 1 else 0))
+                  (zrange (la / w)) ;;
+      alloc_bytes out
+  | _ => Err TypeMismatch
+  end.
+
+Definition impl_vector_less_than := compare_kernel Z.ltb.
+Definition impl_vector_equal := compare_kernel Z.eqb.
+Definition impl_vector_greater_than := compare_kernel Z.gtb.
+
+(* builtin_vector_take (vector.rs:191) *)
+Definition impl_vector_take (arg : bval) : outcome bval :=
+  match arg with
+  | BTup [BBin rd; BInt w; BBin rm] =>
+      w <- checked_width w ;;
+      let data := bytes_of rd in let mask := bytes_of rm in
+      let ld := Z.of_nat (length data) in let lm := Z.of_nat (length mask) in
+      if negb (ld mod w =? 0) || negb (lm =? ld / w) then Val bnil else
+      chunks <- omap (fun (p : Z * Z) =>
+                        let (i, selected) := p in
+                        if selected =? 0 then Val []
+                        else let chunk := firstn (Z.to_nat w) (skipn (Z.to_nat (i * w)) data) in
+                             if Z.of_nat (length chunk) =? w then Val chunk else Panic 21)
+                     (combine (zrange lm) mask) ;;
+      alloc_bytes (concat chunks)
+  | _ => Err TypeMismatch
+  end.
+
+Definition sat_u64 (z : Z) : Z := Z.min z (two64 - 1).
+
+(* builtin_vector_get (vector.rs:224) *)
+Definition impl_vector_get (arg : bval) : outcome bval :=
+  match arg with
+  | BTup [BBin r; BInt w; BInt index] =>
+      w <- checked_width w ;;
+      let bytes := bytes_of r in
+      let len := Z.of_nat (length bytes) in
+      if in_u64 index &&
+         ((len mod w =? 0) && (sat_u64 (sat_u64 (index + 1) * w) <=? len))
+      then v <- lane bytes w index ;; Val (BInt v)
+      else Val bnil
+  | _ => Err TypeMismatch
+  end.
+
+(* builtin_vector_push (vector.rs:255) *)
+Definition impl_vector_push (arg : bval) : outcome bval :=
+  match arg with
+  | BTup [BBin r; BInt w; BInt value] =>
+      w <- checked_width w ;;
+      if negb (in_i64 value && fits value w) then Val bnil else
+      let old_len := rlen r in
+      if negb (old_len mod w =? 0) then Val bnil else
+      let lane_rope := Owned (push_lane w value) in
+      if old_len =? 0 then alloc lane_rope
+      else if negb (in_u64 (old_len + w)) then Panic 22
+      else alloc (mk_concat r lane_rope)
+  | _ => Err TypeMismatch
+  end.
+
+(* builtin_vector_sum (vector.rs:296) *)
+Definition impl_vector_sum (arg : bval) : outcome bval :=
+  match arg with
+  | BTup [BBin r; BInt w] =>
+      w <- checked_width w ;;
+      let bytes := bytes_of r in
+      let len := Z.of_nat (length bytes) in
+      if negb (len mod w =? 0) then Val bnil else
+      acc <- ofold (fun acc i => x <- lane bytes w i ;; Val (acc + x)) (zrange (len / w)) 0 ;;
+      Val (BInt acc)
+  | _ => Err TypeMismatch
+  end.
+
+(* builtin_vector_dot (vector.rs:322) *)
+Definition impl_vector_dot (arg : bval) : outcome bval :=
+  match arg with
+  | BTup [BBin ra; BBin rb; BInt w] =>
+      w <- checked_width w ;;
+      let a := bytes_of ra in let b := bytes_of rb in
+      let la := Z.of_nat (length a) in let lb := Z.of_nat (length b) in
+      if negb (la =? lb) || negb (la mod w =? 0) then Val bnil else
+      acc <- ofold (fun acc i => x <- lane a w i ;; y <- lane b w i ;; Val (acc + x * y))
+                   (zrange (la / w)) 0 ;;
+      Val (BInt acc)
   | _ => Err TypeMismatch
   end.
